@@ -23,7 +23,7 @@ func Enumerate(kind string, depth int) []FileSpec {
 		for _, format := range []string{"TD1", "TD2", "TD3"} {
 			for _, sec := range []bool{true, false} {
 				for _, sex := range []string{"M", "F", ""} {
-					for optv := 0; optv < 3; optv++ { // optional data: empty, short, full
+					for optv := 0; optv < 4; optv++ { // optional data: empty, short, full, with inner fillers
 						for _, long := range []bool{false, true} {
 							if long && format == "TD3" {
 								continue
@@ -46,6 +46,8 @@ func Enumerate(kind string, depth int) []FileSpec {
 								f.OptionalData = "ZE1"[:min(3, optMax)]
 							case 2:
 								f.OptionalData = rword(r, alphaNum, optMax, optMax)
+							case 3:
+								f.OptionalData = "AB CD 7"[:min(7, optMax)]
 							}
 							if format == "TD1" && optv > 0 {
 								f.OptionalData2 = rword(r, alphaNum, 1, 11)
